@@ -21,7 +21,7 @@ RULE = ('case = (own: object kind, key/options) | (foreign: packet tag, header f
 ASSUMPTIONS = ['well-formedness of foreign packets is by construction of the reference encoder (RFC 4880 ss. 4, 5)', 'field equality is judged by the reference decoding of both octet strings']
 MIN_COUNTERS = {'quick': {'own_packets': 1000, 'foreign_packets': 2500, 'foreign_accepted': 2000, 'tags_covered': 20, 'mutated_then_serialised': 30},
                 'thorough': {'own_packets': 10000, 'foreign_packets': 40000}}
-BUDGET = {'quick': (240, 800), 'thorough': (1800, 3600)}
+BUDGET = {'quick': (600, 1500), 'thorough': (1800, 3600)}
 TECHNIQUE = 'runtime monitoring: round-trip law monitor on every emitted packet + differential reference decoding of foreign packets before/after PGPy re-serialisation'
 
 TRAIL = [b'', b'\xb4\x03abc', b'\x00\x00\x00', b'\xff' * 7]
